@@ -6,3 +6,9 @@ import RaftWal.Props.C18
 #print axioms RaftWal.C18.report_or_drop_once
 #print axioms RaftWal.C18.quiescent_exactly_once
 #print axioms RaftWal.C18.skipped_range_named
+#print axioms RaftWal.C18.failed_store_changes_nothing
+#print axioms RaftWal.C18.store_error_is_returned
+#print axioms RaftWal.C18.delete_error_iff
+#print axioms RaftWal.C18.failed_delete_changes_nothing
+#print axioms RaftWal.C18.delete_returns_underlying_error
+#print axioms RaftWal.C18.store_returns_underlying_error
